@@ -153,6 +153,8 @@ def gen_labware(rng, n=None, big=False):
             if rng.random() < 0.3:
                 sh = Shadow([spec])
                 spec["column_names"] = [rng.choice(["water", "stock", None]) if sh.v[0][c] > 0 else None for c in range(cols)]
+            elif rng.random() < 0.2 and mode == "list":
+                spec["via_labware"] = True
         specs.append(spec)
     # two labware built from one and the same float array object (the runner passes the identical ndarray)
     if n >= 2 and rng.random() < 0.15:
@@ -587,3 +589,67 @@ def with_devices(case, devs=("evo", "fluent")):
         c["dev"] = d
         out.append(c)
     return out
+
+
+# --------------------------------------------------------------------------- bounded-exhaustive small scope
+
+
+def small_alphabet():
+    """a fixed alphabet of calls on a 2x2 plate P (index 0) and a 2-virtual-row, 2-column trough T (index 1), chosen at the
+    boundaries: exactly at a limit, one unit beyond, partial effects, splits, same well, virtual rows, zero volumes"""
+    sc = lambda v: {"shape": "scalar", "v": v}
+    ls = lambda v: {"shape": "list", "v": v}
+    half = {"water": "1/2", "glc": "1/2"}
+    A = []
+    A.append({"op": "add", "lw": 0, "wells": sc("A01"), "vols": sc("50"), "label": "to max"})
+    A.append({"op": "add", "lw": 0, "wells": sc("A01"), "vols": sc("51"), "label": None})
+    A.append({"op": "add", "lw": 0, "wells": ls(["A02", "B01"]), "vols": ls(["10", "1"]), "label": "partial", "comps": [half, None]})
+    A.append({"op": "add", "lw": 0, "wells": ls(["A02", "A02"]), "vols": sc("0"), "label": "", "comps": [{"water": "1"}, {"glc": "1"}]})
+    A.append({"op": "remove", "lw": 0, "wells": sc("B02"), "vols": sc("0"), "label": "at min"})
+    A.append({"op": "remove", "lw": 0, "wells": ls(["B01", "B02"]), "vols": ls(["50", "1"]), "label": "partial"})
+    A.append({"op": "remove", "lw": 1, "wells": ls(["A01", "B01"]), "vols": ls(["75", "75"]), "label": "alias"})
+    A.append({"op": "aspirate", "lw": 0, "wells": sc("A01"), "vols": sc("40"), "label": "max step"})
+    A.append({"op": "aspirate", "lw": 0, "wells": ls(["A01", "B01"]), "vols": ls(["5", "41"]), "label": "too big", "kw": {"liquid_class": "Water"}})
+    A.append({"op": "aspirate", "lw": 0, "wells": ls(["A01", "B01"]), "vols": ls(["10", "95"]), "label": None})
+    A.append({"op": "dispense", "lw": 0, "wells": sc("A02"), "vols": sc("40"), "label": "d", "comps": [half], "kw": {"tip": {"many": [["i", 1], ["t", 3]]}}})
+    A.append({"op": "dispense", "lw": 0, "wells": ls(["A02", "B01"]), "vols": ls(["5", "1"]), "label": None})
+    A.append({"op": "dispense", "lw": 1, "wells": ls(["B02", "A02"]), "vols": sc("30"), "label": "trough", "comps": [{"acid": "1"}, {"acid": "1"}]})
+    A.append({"op": "transfer", "src": 1, "swells": sc("A01"), "dst": 0, "dwells": sc("A02"), "vols": sc("90"), "label": "split"})
+    A.append({"op": "transfer", "src": 0, "swells": sc("A01"), "dst": 0, "dwells": sc("A01"), "vols": sc("20"), "label": "mix", "ws": "reuse"})
+    A.append({"op": "transfer", "src": 0, "swells": ls(["A01", "B01"]), "dst": 0, "dwells": ls(["B01", "A01"]), "vols": ls(["30", "30"]), "label": "swap", "ws": "flush"})
+    A.append({"op": "transfer", "src": 1, "swells": ls(["A01", "B01"]), "dst": 0, "dwells": ls(["A02", "B02"]), "vols": sc("10"), "label": "first", "pb": "destination"})
+    A.append({"op": "transfer", "src": 0, "swells": sc("B01"), "dst": 1, "dwells": sc("B02"), "vols": sc("95"), "label": "underflows midway", "ws": 2})
+    A.append({"op": "transfer", "src": 0, "swells": ls(["A01", "B01"]), "dst": 1, "dwells": sc("A02"), "vols": ls(["0", "0"]), "label": "nothing"})
+    A.append({"op": "transfer", "src": 0, "swells": {"shape": "2d", "v": [["A01", "A02"], ["B01", "B02"]]}, "dst": 1,
+              "dwells": {"shape": "2d", "v": [["A01", "A02"], ["B01", "B02"]]}, "vols": {"shape": "2d", "v": [["1", "0"], ["2", "0"]]}, "label": None, "ws": 5})
+    A.append({"op": "distribute", "src": 1, "col": 0, "dst": 0, "dwells": ls(["A02", "B02"]), "volume": "20", "label": "dist"})
+    A.append({"op": "distribute", "src": 1, "col": 1, "dst": 0, "dwells": ls(["A02"]), "volume": {"int": 5}})
+    A.append({"op": "distribute", "src": 1, "col": 0, "dst": 0, "dwells": ls(["A01", "B01"]), "volume": "20", "multi_disp": 6})
+    A.append({"op": "distribute", "src": 1, "col": 0, "dst": 1, "dwells": ls(["A02", "B02"]), "volume": "10", "label": "self"})
+    A.append({"op": "distribute", "src": 1, "col": 0, "dst": 0, "dwells": ls(["A02"]), "volume": "41"})
+    A.append({"op": "comment", "text": "note"})
+    A.append({"op": "wash", "scheme": 3})
+    A.append({"op": "commit"})
+    A.append({"op": "set_diti", "i": 2})
+    A.append({"op": "condense", "lw": 0, "n": 2, "label": "merged", "explicit_label": True})
+    return A
+
+
+def small_labware():
+    return [{"kind": "plate", "name": "P", "rows": 2, "cols": 2, "min": "10", "max": "100",
+             "init": {"shape": "2d", "v": [["50", "0"], ["100", "10"]]}, "names": {"A01": "glc"}},
+            {"kind": "trough", "name": "T", "vrows": 2, "cols": 2, "min": "0", "max": "200", "init": {"shape": "list", "v": ["150", "0"]}}]
+
+
+def gen_small_programs(length, autosplit=True, diti=False, sample=None, rng=None):
+    import itertools
+
+    A = small_alphabet()
+    seqs = itertools.product(range(len(A)), repeat=length)
+    if sample is not None:
+        seqs = [tuple(rng.randrange(len(A)) for _ in range(length)) for _ in range(sample)]
+    for idx in seqs:
+        import copy
+
+        yield {"dev": "evo", "wl": {"max_volume": "40", "max_int": True, "auto_split": autosplit, "diti_mode": diti},
+               "labware": small_labware(), "ops": [copy.deepcopy(A[i]) for i in idx], "family": "small%d" % length}
